@@ -16,7 +16,9 @@ ops (public keys and runtime ids are numbers):
 
 Answer per line: `ok` (possibly followed by `NOTE:<observation>` tokens), or `DIVERGE result ...` / `DIVERGE state ...` when the model's result or
 state differs from the implementation's, and/or `SPEC <clause>` when the executable invariant
-`invB` (the definition the theorems are about) is false on the dumped real state (mode `tx` only).
+`invStrongB` (`invB`, which the theorems prove for every history, plus the key-uniqueness clause with
+identity keys included, clause name `key-shared-node-id-as-subkey`) is false on the dumped real state
+(mode `tx` only).
 After a divergence every line is answered `skip` until the next `new`.
 
 The environment variable `OM_REGISTRY_ORDER=removalsfirst|interleaved` overrides the order of sub-key writes (default `codeOrder`).
@@ -215,7 +217,7 @@ def step (st : St) (line : String) : St × String :=
           match readState s'.params s'.epoch toks with
           | none => some "SPEC dump-unreadable"
           | some real =>
-            match invFailure real with
+            match invStrongFailure real with
             | some f => some ("SPEC " ++ f)
             | none => if subKeysUniqueB real then none else some "SPEC subkey-of-two-nodes"
         else none
@@ -226,9 +228,6 @@ def step (st : St) (line : String) : St × String :=
         else none
       -- observations that are not failures (corners the code permits, see Props/C17.lean)
       let notes : String :=
-        (match readState s'.params s'.epoch toks with
-          | some real => if allKeysUniqueB real then "" else " NOTE:identity-key-is-subkey-of-another-node"
-          | none => "") ++
         (match opw with
           | ["regnode", _, n, sg, _] =>
             match parseNode n, parseNats sg with
